@@ -27,7 +27,7 @@ type c17case struct {
 	M1, M2  string
 	Seed    int64 `json:"seed,omitempty"`
 	Reopen  bool  `json:"reopen,omitempty"` // after Close another file is opened (and stays open) before the closed handle is used again
-	Warm    bool  `json:"warm,omitempty"` // M1 and M2 are also called once BEFORE Close (something remembered from then must not answer afterwards)
+	Warm    bool  `json:"warm,omitempty"`   // M1 and M2 are also called once BEFORE Close (something remembered from then must not answer afterwards)
 }
 
 func c17cases(env *core.Env) []c17case {
